@@ -8,8 +8,7 @@
 EXTENDS TlbSchema
 T == INSTANCE TonTlb WITH Schema <- TheSchema
 
-RECURSIVE TreeFits(_)
-TreeFits(t) == Len(t.b) <= 1023 /\ Len(t.r) <= 4 /\ \A j \in 1..Len(t.r) : TreeFits(t.r[j])
+TreeFits(t) == T!TreeFits(t)
 MsgValue(m, s1, s2) ==
     [c |-> "message", info |-> m.info,
      init |-> IF m.init = <<>> THEN <<>> ELSE <<[side |-> s1, v |-> m.init[1]]>>,
